@@ -89,7 +89,18 @@ fn oracle_state<A: Alphabet, C: StrictlyPositive + ArrayLength>(st: &StripedSequ
             Err(()) => return Err(format!("index {} panics", i)),
         }
     }
+    // the linear sequence's own counting API gives the same numbers
+    let enc = EncodedSequence::<A>::new(s.iter().map(|&k| A::symbols()[k]).collect());
+    let lin = SymbolCount::<A>::count_symbols(&enc);
+    let slice: &[A::Symbol] = enc.as_ref();
+    let lin2 = SymbolCount::<A>::count_symbols(&slice);
     let counts = SymbolCount::<A>::count_symbols(st);
+    for sym in A::symbols().iter() {
+        let j = sym.as_index();
+        if lin[j] != counts[j] || lin2[j] != counts[j] || SymbolCount::<A>::count_symbol(&enc, *sym) != counts[j] || SymbolCount::<A>::count_symbol(&slice, *sym) != counts[j] {
+            return Err(format!("linear and striped symbol counts differ for symbol {}: {} / {} vs {}", j, lin[j], lin2[j], counts[j]));
+        }
+    }
     for (a, sym) in A::symbols().iter().enumerate() {
         let want = s.iter().filter(|&&x| x == sym.as_index()).count();
         if counts[sym.as_index()] != want || SymbolCount::<A>::count_symbol(st, *sym) != want {
@@ -133,7 +144,9 @@ impl<A: Alphabet> StripeWith<A, U32> for Simd {
             "avx2" => Pipeline::<A, _>::avx2().unwrap().stripe(s),
             _ => {
                 assert!(verif::force_backend(b.strip_prefix("disp-").unwrap()));
-                let r = EncodedSequence::<A>::new(s.to_vec()).to_striped();
+                // the public conversions built on the dispatcher: `to_striped()` and `From<EncodedSequence>`
+                let e = EncodedSequence::<A>::new(s.to_vec());
+                let r = if s.len() % 2 == 0 { e.to_striped() } else { StripedSequence::<A, U32>::from(e) };
                 verif::clear();
                 r
             }
